@@ -20,7 +20,9 @@ RULE = ('One case = a generated chart whose states and transitions carry 0-3 pre
         '__old__.v = value at state entry / transition start); (2) the same inputs are re-run once per sampled/every '
         'condition occurrence with that occurrence returning False: execute_once must raise exactly Precondition/'
         'Postcondition/InvariantError carrying that state/transition object and that condition string, and the probe log '
-        'must end at the failing occurrence.  Non-trivial = distinct (chart, occurrence kind, position) injected.')
+        'must end at the failing occurrence.  Variants: a second live interpreter on the same Statechart one step behind, conditions '
+        'calling active()/sent(), a text-collision scenario (same source text as code and as condition).  Non-trivial = distinct '
+        '(chart, occurrence kind, position) injected.')
 ASSUMPTIONS = ['order between the invariant blocks of different active states is not fixed by the statement and is canonicalised',
                'conditions are side-effect free apart from the probe']
 KINDS = ['state.pre', 'state.post', 'state.inv', 'trans.pre', 'trans.inv_before', 'trans.post', 'trans.inv_after',
